@@ -66,3 +66,10 @@ package java_identify
 //@ ensures old((*currentNode).NodeName) != "" ==> len(nodes) == old(len(nodes)) + 1 && Extends(nodes, old(nodes), 1) && nodes[len(nodes) - 1] == old(*currentNode)
 //@ ensures old((*currentNode).NodeName) == "" ==> nodes == old(nodes)
 //@ ensures currentNode != nil && (*currentNode).NodeName == "" && len((*currentNode).Functions) == 0
+
+// ---- C18: a method is nullable if some return statement returns null: a later return never clears the flag
+//@ method JavaIdentifierListener.EnterExpression
+//@ modifies currentMethod
+//@ ensures old(currentMethod.IsReturnNull) ==> currentMethod.IsReturnNull
+//@ ensures IsKind(Parent(ctx), "StatementContext") && Lower(GetText(Kid(Parent(ctx), 0))) == "return" && Contains(GetText(ctx), "null") ==> currentMethod.IsReturnNull
+//@ ensures currentMethod.Name == old(currentMethod.Name) && currentMethod.ReturnType == old(currentMethod.ReturnType) && currentMethod.Annotations == old(currentMethod.Annotations)
